@@ -206,6 +206,9 @@ func (w *Worker) execCLI(args []string, visits []simapi.Visit, v *simapi.Variant
 		return out
 	}
 	out.Checkers = w.hooks.CheckerNames(h)
+	if w.afterInit != nil {
+		w.afterInit() // the front-end's own configuration writes are done; checkers have not run yet
+	}
 	race0 := raceErrors()
 	if v.Sched != nil {
 		out.SchedOn = true
